@@ -391,18 +391,25 @@ class Mitochondria:
 
         except Exception as e:
             self._ros_accumulated += 0.1
+            # Rendering the exception must not raise out of the handler: a tool may raise an exception whose __str__
+            # fails or hands back a str subclass with a failing __format__, or whose class has a failing __name__.
+            # "%s" formatting always yields a plain str.
             try:
-                message = str(e)
+                kind = "%s" % (type(e).__name__,)
+            except Exception:
+                kind = "Exception"
+            try:
+                message = "%s" % (e,)
             except Exception:
                 message = "<exception message unavailable>"  # a tool raised an exception whose __str__ fails
             error_context = {
                 "expression": expression[:100] + "..." if len(expression) > 100 else expression,
-                "error_type": type(e).__name__,
+                "error_type": kind,
                 "error_message": message,
             }
             return MetabolicResult(
                 success=False,
-                error=f"Metabolic failure in {pathway.value if pathway else 'auto'}: {type(e).__name__}: {message}",
+                error=f"Metabolic failure in {pathway.value if pathway else 'auto'}: {kind}: {message}",
                 pathway=pathway or MetabolicPathway.GLYCOLYSIS,
                 ros_level=self._ros_accumulated
             )
